@@ -39,6 +39,7 @@ def main():
         for k in range(n2):
             items = A.gen_boundary_pair(rng, big=(k % 40 == 0))
             cases.append({'src': A.to_source(items), 'items': items, 'tag': 'boundary'})
+        cases += A.relax_chain_cases(rng, ck.thorough())
     r = A.pipeline(ck, cases)
     if r is None:
         ck.finish()
